@@ -260,6 +260,8 @@ def replay_C07(ctx, case):
 
 def c04_case(rng):
     spec = gen.gen_spec(rng, random_units=rng.random() < 0.5, sl_bias=0.0, optional_data=0.0, allow_rev_worm=True, max_stages=3)
+    spec['init'].pop('pos_kind', None)       # long horizons: positions of either sign
+    spec['init']['pos'] = spec['init']['pos'][:2]
     L = rng.choice([0.0, rng.uniform(0.01, 0.8), rng.uniform(0.8, 3.0), -rng.uniform(0.01, 1.0)])
     spec['load']['coef'] = [L, 0.0, 0.0, 0.0, 0.0]
     D = rng.choice([1.0, 1.0, rng.uniform(0.3, 1.0), -rng.uniform(0.3, 1.0), rng.uniform(-0.02, 0.02)])
